@@ -120,6 +120,8 @@ def run_heavy(ctx, timeout=3000):
         what = "pool of %d transactions (%d heavy; related: %s), node proposing at height %d (%s)" % (
             len(rec["pool"]), d["nheavy"], ", ".join("%d:%s spends %s" % (t["id"], t["w"], t["spends"]) for t in rel) or "none",
             rec["height"], rec["mode"])
+        if rec.get("blocked"):
+            raise Infra("ProcessBlock did not return within the watchdog time on the node's own block (%s)" % what)
         if not rec["built"]:
             ctx.violation("C38:proposer:template-fails:heavy", "%s: %s" % (what, rec["err"]), ro)
             continue
